@@ -14,7 +14,7 @@ SPEC = {
     "classes": {},
     "n_quick": 1000, "n_thorough": 4000,
     "level": "proof",
-    "what_violation": "a load completes with other values than the loader/cache gave for its keys, a batch repeats a key or exceeds the bound, a key is never dispatched, or a load never completes",
+    "what_violation": "a load completes with other values than the loader/cache gave for its keys (missing, extra or foreign), a key not served from the cache was not in the batch handed to the loader, a batch repeats a key or exceeds the bound, or a load never completes",
     "rule": ("stream EXH: EVERY schedule (order of the requests' critical sections, timer firings, loader answers, at most one "
              "cancellation) of small configurations drawn in seed order from 4 cache kinds x max_batch_size 1..3 x cache disabled or "
              "not x 9 request sets (<= 3 requests over 3 keys, duplicates, overlaps) x {plain, pre-fed cache, failing call + key not "
@@ -24,7 +24,7 @@ SPEC = {
              "schedule); non-trivial = some load completed with values"),
     "trusted": ["harness adapters: hand-polled spawner (task id = spawn order), timer and loader parked on oneshots, noop waker; "
                 "new tasks are polled once right after the request that spawned them",
-                "differential sampling: Loader.v (mstep) = DataLoader critical sections on this run's schedules",
+                "differential sampling: Loader.v (mstep) = DataLoader critical sections on this run's schedules; independently of it every observed trace is judged by the trace specification (tstep/trace_ok: reference cache of C29 fed from the trace, open batches, per-request cache snapshot)",
                 "the scc entry lock makes load_many's block, Requests::take and do_load's update + fan-out atomic (read from the source)"],
     "assumptions": [
         "one key type per machine; the cache-disable flags are constant during a schedule (C29 covers enable/disable sequences)",
@@ -43,7 +43,7 @@ MANIFEST = {
              "cache or sits in the pending key set (fewer than max_batch_size keys, a timer task armed that takes all of them) or in a "
              "batch handed to the loader; every completed load holds exactly its request's cached values plus the loader's values for "
              "its remaining keys from the batch containing them, or that batch's error; every waiting load is covered by an armed "
-             "timer or a task awaiting the loader, whose answer reaches every sender not cancelled. The machine is tied to the real "
+             "timer or a task awaiting the loader, whose answer reaches every sender not cancelled; every trace of the machine is accepted by the machine-independent trace specification (exact values per requested key, uncached keys contained in the answered batch). The machine is tied to the real "
              "DataLoader by replaying every schedule of small configurations and random larger histories with a hand-driven spawner, "
              "timer and loader."),
     "note": ("trusted: Coq kernel, harness adapters, sampled agreement machine vs code, atomicity of the sections under the scc "
